@@ -10,7 +10,9 @@
             n="alloc": x = requested length, k = "ok" (r = address returned / index of the bus or
                        buffer object), "none" (None returned / "no space" exception, r = -1) or
                        "exc:<Type>" (anything else);
-            n="free" : x = address freed (-1 = None), k = "ok" | "exc:<Type>".
+            n="free" : x = address freed (-1 = None), k = "ok" | "exc:<Type>";
+            n="blocks": bl = <<<<start, size>>, ...>> as returned by the allocator's blocks();
+            n="freeall": Buffer.free_all(server) was called.
    Several allocators in one trace are different clients of one server: besides staying in its own partition, nobody
    may be handed an index another one holds (CrossClient).
    The spec never predicts which run the allocator picks: it decides that the one returned was
@@ -42,8 +44,12 @@ Why(e, lvs) ==
              ELSE IF \E j \in 1 .. Len(lvs) : j # e.w /\ Occ(lv2) \cap Occ(lvs[j]) # {} THEN "CrossClient"
              ELSE "ok"
     ELSE IF e.n = "free" THEN "ok"
+    ELSE IF e.n = "blocks" THEN (IF BlocksAgree(lv, e.bl) THEN "ok" ELSE "BlocksAgree")     \* blocks(): exactly the live ranges
+    ELSE IF e.n = "freeall" THEN "ok"                     \* Buffer.free_all: nothing stays live (judged by what follows)
     ELSE "unknown-event"
-After(e, lvs) == [lvs EXCEPT ![e.w] = IF e.n = "alloc" THEN AfterAlloc(@, e.x, e.r) ELSE AfterFree(@, e.x)]
+After(e, lvs) == [lvs EXCEPT ![e.w] = IF e.n = "alloc" THEN AfterAlloc(@, e.x, e.r)
+                                       ELSE IF e.n = "free" THEN AfterFree(@, e.x)
+                                       ELSE IF e.n = "freeall" THEN {} ELSE @]
 
 Step == /\ l >= 1 /\ l <= Len(Traces[tid].ev)
         /\ LET e == Traces[tid].ev[l]
